@@ -6,4 +6,5 @@ set_option maxRecDepth 100000
 theorem nuclides_resolve_q2 : Gen.PT.nuclidesQ2.all nuclideRowOk = true := by decide +kernel
 theorem nuclides_anycase_q2 : Gen.PT.nuclidesQ2.all nuclideRowAnycaseOk = true := by decide +kernel
 theorem tree_rows_q2 : Gen.PT.nuclidesQ2.all treeRowOk = true := by decide +kernel
+theorem masses_float_q2 : Gen.PT.nuclidesQ2.all massFloatOk = true := by decide +kernel
 end QcelVerif.PT
